@@ -60,6 +60,7 @@ def merge_reports(a, b):
     a.vacuous = a.vacuous or b.vacuous
     a.inlined |= b.inlined
     a.modular_calls |= b.modular_calls
+    a.unproved_skipped |= b.unproved_skipped
     a.bounds |= b.bounds
     a.models_used |= b.models_used
     a.wall_s += b.wall_s
@@ -83,6 +84,7 @@ class FunctionReport:
         self.vacuous = False
         self.inlined = set()
         self.modular_calls = set()
+        self.unproved_skipped = set()     # callee clauses NOT assumed at call sites (open known findings)
         self.sha256 = None
         self.n_statements = 0
         self.dropped = []
@@ -222,6 +224,7 @@ class Verifier:
             rep.inlined |= I.inlined
             rep.bounds |= I.bounds_used | I.bounds_hit
             rep.modular_calls |= I.modular_used
+            rep.unproved_skipped |= I.unproved_skipped
         rep.wall_s = time.time() - t0
         from . import builtins_model
         rep.models_used = set(builtins_model.USED_MODELS)
@@ -257,6 +260,14 @@ class Verifier:
         I.old_ghost = {'g_enc': I.g_enc, 'g_dec': I.g_dec, 'g_nframes': I.g_nframes, 'g_ngoaway': I.g_ngoaway, 'g_nencode': I.g_nencode}
         inputs = dict(sf.locals)
         outcome = None
+
+        def sink(label, goal, text, cprops):
+            ob = Obligation(fi.qualname, 'requires@callsite', label, list(I.ctl.labels), cprops or C.props, text)
+            if I.bounds_used:
+                ob.bounded = sorted(I.bounds_used)
+            self.discharge(I, ob, goal, inputs)
+            rep.obligations.append(ob)
+        I.obligation_sink = sink
         try:
             if fi.kind == 'setter':
                 result = I.call_function(fi, argvals, {})
